@@ -127,6 +127,17 @@ func (t *tracer) trace(l lval) lval {
 			}
 			l = lval{args[idx], site.Parent(), l.chain[:len(l.chain)-1]}
 			continue
+		case *ssa.Extract:
+			// result i of a helper with several returns of which exactly one yields something for it (the success path)
+			if call, ok := x.Tuple.(*ssa.Call); ok {
+				callee := staticCallee(&call.Call)
+				if callee != nil && len(l.chain) < 6 && t.followable(l.fn, callee) && callee != l.fn {
+					if rv, ok := principalResult(callee, x.Index); ok {
+						l = lval{rv, callee, append(append([]ssa.CallInstruction{}, l.chain...), call)}
+						continue
+					}
+				}
+			}
 		case *ssa.Call:
 			callee := staticCallee(&x.Call)
 			if callee != nil && len(l.chain) < 6 && t.followable(l.fn, callee) && callee.Signature.Results().Len() == 1 {
@@ -585,3 +596,26 @@ func loopAround(li linstr) (*loopInfo, int) {
 }
 
 func (c *Ctx) plainTracer() *tracer { return &tracer{c: c} }
+
+
+// principalResult: result i of callee when exactly one of its returns yields something other than nil / a zero constant
+// / an unwritten local for it, and the result is not the error.
+func principalResult(callee *ssa.Function, i int) (ssa.Value, bool) {
+	if i >= callee.Signature.Results().Len() || isErrorType(callee.Signature.Results().At(i).Type()) {
+		return nil, false
+	}
+	var principal ssa.Value
+	n := 0
+	for _, r := range returnsOf(callee) {
+		v := retVal(r, i)
+		if isNilConst(v) || isUnwrittenLocal(v) {
+			continue
+		}
+		if k, ok := v.(*ssa.Const); ok && k.Value != nil && (k.Value.ExactString() == "0" || k.Value.ExactString() == "false" || k.Value.ExactString() == `""`) {
+			continue
+		}
+		principal = v
+		n++
+	}
+	return principal, n == 1
+}
